@@ -13,6 +13,7 @@ import (
 
 func runG6(r *Repo, rep *Report) {
 	nranges := 0
+	var accepted []*mapRange
 	for _, b := range r.bodies() {
 		info := b.Pkg.TypesInfo
 		inspectOwn(b.Block, func(n ast.Node) bool {
@@ -30,6 +31,7 @@ func runG6(r *Repo, rep *Report) {
 			nranges++
 			why, ok := mapRangeInsensitive(info, b, rs)
 			if ok {
+				accepted = append(accepted, &mapRange{b, rs})
 				rep.pass("G6")
 				rep.sample(map[string]string{"rule": "G6 map range", "site": r.pos(rs.Pos()), "function": b.Name, "class": "order-insensitive: " + why})
 			} else {
@@ -40,6 +42,7 @@ func runG6(r *Repo, rep *Report) {
 		})
 	}
 	rep.analysed("map_ranges", nranges)
+	g6LoopEffects(r, rep, accepted)
 	// package-level state: stores outside init / main.main, and any package-level var of map/slice/pointer type that is written
 	for _, b := range r.bodies() {
 		info := b.Pkg.TypesInfo
